@@ -9,6 +9,7 @@ sys.path.insert(0, ROOT)
 from hcsa import main as M
 names = set()
 params = {}
+sigs = {}
 for cfg in M.CONFIGS:
     p = M.extract(cfg)
     j = json.load(open(p))
@@ -16,11 +17,12 @@ for cfg in M.CONFIGS:
         if b["kind"] in ("Fn", "AssocFn"):
             names.add(b["name"])
             params[b["name"]] = {"args": [b["locals"][i]["name"] for i in range(1, b["arg_count"] + 1)]}
+            sigs[b["name"]] = {"parent": b.get("parent"), "inputs": b.get("inputs"), "output": b.get("output"), "async": bool(b.get("asyncness")), "impl_trait": b.get("impl_trait")}
         elif b["is_coroutine"] and b["name"].endswith("::{closure#0}") and "::{closure" not in b["name"][:-len("::{closure#0}")]:
             # the coroutine of an async fn captures exactly the fn's parameters, in order
             params[b["name"]] = {"upvars": [u["name"] for u in b["upvars"]]}
     os.unlink(p)
 import subprocess
 head = subprocess.run(["git", "-C", "/repo", "rev-parse", "HEAD"], capture_output=True, text=True).stdout.strip()
-json.dump({"reviewed_tree": head, "functions": sorted(names), "params": {k: params[k] for k in sorted(params)}}, open(os.path.join(ROOT, "rules", "known_fns.json"), "w"), indent=0)
+json.dump({"reviewed_tree": head, "functions": sorted(names), "params": {k: params[k] for k in sorted(params)}, "sigs": {k: sigs[k] for k in sorted(sigs)}}, open(os.path.join(ROOT, "rules", "known_fns.json"), "w"), indent=0)
 print(len(names), "functions")
